@@ -126,7 +126,7 @@ def run(ctx, out):
     out.rule = ("for small copies (single file with mode/mtime/xattr, overwrite with numbered backup, tree with nested dirs, link, "
                 "FIFO, three files selected by a --glob pattern spanning three directories, one 417 KB file copied as ONE block) and both drivers, with --block-size 16KB and (file, tree) with --no-progress -v: a reference trace, then one run per (system call touching the sandbox) x errno from {EIO "
                 "ENOSPC EACCES EMFILE EROFS EEXIST EPERM}, keyed by (syscall, path, n-th occurrence); exit 0 must imply a complete "
-                "and correct destination incl. mode/mtime; thorough adds random pairs of faults. non-trivial = the injection "
+                "and correct destination incl. mode/mtime; thorough adds random pairs of faults; plus a failing mknod (reported only through the return value of the worker that meets it) under several worker counts and schedule seeds. non-trivial = the injection "
                 "fired; distinct = (case, driver, call, errno)")
     d0 = ctx.work.fresh("c04")
     mcodes, mobs = [], []
@@ -229,6 +229,27 @@ def run(ctx, out):
                         mcodes.append([code])
                         mobs.append((rep, r.exit))
             shutil.rmtree(d, ignore_errors=True)
+    # ---- a failure that reaches main() ONLY through a worker's return value (a special file that cannot be made sends no Error
+    #      update), taken by whichever of several workers happens to get it: every worker's result counts, under every schedule
+    for driver in ("parfile", "parblock"):
+        for w in ((2, 4) if quick else (2, 3, 4, 8)):
+            for sd in ((1, 2, 3, 4) if quick else range(1, 13)):
+                d = os.path.join(d0, "wk_%s_%d_%d" % (driver, w, sd))
+                os.makedirs(os.path.join(d, "src"))
+                for i in range(10):
+                    open(os.path.join(d, "src", "f%02d" % i), "wb").write(b"x" * (3000 + i))
+                os.mkfifo(os.path.join(d, "src", "f05a_pipe"))
+                argv = [ctx.bins["xcp"], "-r", "-T", "--driver", driver, "-w", str(w), "src", "dst"]
+                rules = [("fail", rng.choice([1, 28, 5]), 0, "mknodat", 1, "*")]
+                r = xcp.run_supervised(sup, argv, d, d, rules=rules, tag="wk", timeout_ms=30000, seed=sd * 7919 + w, hold_permille=300, hold_maxms=4)
+                fired = [x for x in r.trace if x.get("inj")]
+                out.case(("worker-result-only", driver, w, sd), nontrivial=bool(fired))
+                out.count("worker_result_only_runs")
+                if fired and r.exit == 0:
+                    out.violation("exit 0 although mknod of dst/f05a_pipe failed (a failure reported only by the return value of the worker that "
+                                  "met it; %s, %d workers, schedule seed %d)" % (driver, w, sd),
+                                  dict(argv=argv[1:], rules=rules, seed=sd * 7919 + w, exit=r.exit, stderr=r.stderr[-300:]))
+                shutil.rmtree(d, ignore_errors=True)
     if ctx.model_ok and mcodes:
         res = core.run_model("run_fault_effect", mcodes, shard=400, tag="c04")
         for (rep, exitc), mo in zip(mobs, res):
